@@ -781,7 +781,7 @@ fn random_call(rng: &mut Rng, w: &CW, p: &Policy) -> Value {
         }
         "extspend" => {
             let c = rng.pick(claims);
-            let tmax = g(&c["c"], "tmax") + *rng.pick(&[1, 24, 48, 100, 0]);
+            let tmax = g(&c["c"], "tmax") + *rng.pick(&[1, 24, 48, 100, 0, -1, -12]);
             json!({"a": "Transfer", "c": c["c"]["client"], "to": "vr", "amt": c["c"]["size"], "allocs": [],
                    "exts": [{"provider": c["c"]["provider"], "claim": c["id"], "tmax": tmax}], "ids": []})
         }
@@ -903,8 +903,7 @@ fn random_call(rng: &mut Rng, w: &CW, p: &Policy) -> Value {
                 marks.extend([end - 1, end]);
             }
             for a in allocs {
-                marks.push(g(&a["a"], "exp"));
-                marks.push(g(&a["a"], "exp") + 1);
+                marks.extend([g(&a["a"], "exp") - 1, g(&a["a"], "exp"), g(&a["a"], "exp") + 1]);
             }
             for pc in pres {
                 marks.push(g(pc, "at") + 2);
